@@ -53,6 +53,70 @@ pub fn install_hook() {
 
 type Parser = fn(&[u8]) -> bool;
 
+// ---- use after parse: a document that parses is handed to the operation that consumes it ----------
+// (the verifier for presentations, conversion / validation for credentials); a panic THERE is as much a
+// crash on untrusted input as one inside serde. The context is rebuilt per thread from documents.
+static USE_DOCS: std::sync::OnceLock<String> = std::sync::OnceLock::new();
+struct UseCtx {
+    c: vw::BuiltCtx,
+    reqs: Vec<PresentationRequest>,
+}
+thread_local! {
+    static USE: RefCell<Option<UseCtx>> = RefCell::new(None);
+}
+fn with_use<R>(f: impl FnOnce(&UseCtx) -> R) -> Option<R> {
+    USE.with(|u| {
+        if u.borrow().is_none() {
+            let d: Value = serde_json::from_str(USE_DOCS.get()?).ok()?;
+            let mut c = vw::BuiltCtx { schemas: Default::default(), cred_defs: Default::default(), reg_defs: Some(Default::default()), lists: Some(vec![]), ovr: None };
+            for (id, v) in d["schemas"].as_object()? {
+                c.schemas.insert(anoncreds::data_types::schema::SchemaId::new_unchecked(id.clone()), serde_json::from_value(v.clone()).ok()?);
+            }
+            for (id, v) in d["cred_defs"].as_object()? {
+                c.cred_defs.insert(anoncreds::data_types::cred_def::CredentialDefinitionId::new_unchecked(id.clone()), serde_json::from_value(v.clone()).ok()?);
+            }
+            for (id, v) in d["reg_defs"].as_object()? {
+                c.reg_defs.as_mut()?.insert(anoncreds::data_types::rev_reg_def::RevocationRegistryDefinitionId::new_unchecked(id.clone()), serde_json::from_value(v.clone()).ok()?);
+            }
+            for v in d["lists"].as_array()? {
+                c.lists.as_mut()?.push(serde_json::from_value(v.clone()).ok()?);
+            }
+            let reqs = d["reqs"].as_array()?.iter().filter_map(|v| serde_json::from_value(v.clone()).ok()).collect();
+            *u.borrow_mut() = Some(UseCtx { c, reqs });
+        }
+        let b = u.borrow();
+        Some(f(b.as_ref()?))
+    })
+}
+fn p_pres_use(b: &[u8]) -> bool {
+    let Ok(p) = serde_json::from_slice::<Presentation>(b) else { return false };
+    with_use(|u| {
+        for r in u.reqs.iter() {
+            let _ = anoncreds::verifier::verify_presentation(&p, r, &u.c.schemas, &u.c.cred_defs, u.c.reg_defs.as_ref(), u.c.lists.clone(), None);
+        }
+    });
+    true
+}
+fn p_wpres_use(b: &[u8]) -> bool {
+    let Ok(p) = serde_json::from_slice::<W3CPresentation>(b) else { return false };
+    with_use(|u| {
+        for r in u.reqs.iter() {
+            let _ = anoncreds::w3c::verifier::verify_presentation(&p, r, &u.c.schemas, &u.c.cred_defs, u.c.reg_defs.as_ref(), u.c.lists.clone(), None);
+        }
+    });
+    true
+}
+fn p_wcred_use(b: &[u8]) -> bool {
+    let Ok(c) = serde_json::from_slice::<W3CCredential>(b) else { return false };
+    let _ = anoncreds::w3c::credential_conversion::credential_from_w3c(&c);
+    true
+}
+fn p_cred_use(b: &[u8]) -> bool {
+    let Ok(c) = serde_json::from_slice::<Credential>(b) else { return false };
+    let _ = anoncreds::w3c::credential_conversion::credential_to_w3c(&c, &"did:web:issuer".try_into().unwrap(), None);
+    true
+}
+
 fn p<T: serde::de::DeserializeOwned>(b: &[u8]) -> bool {
     serde_json::from_slice::<T>(b).is_ok()
 }
@@ -90,6 +154,16 @@ fn docs(w: &World) -> Vec<(&'static str, Parser, Vec<Vec<u8>>)> {
             }
         }
     }
+    // documents for the use-after-parse context
+    let full = vw::build_ctx(w, &vw::VCtx::full(w));
+    let use_docs = json!({
+        "schemas": full.schemas.iter().map(|(k, v)| (k.to_string(), serde_json::to_value(v).unwrap())).collect::<serde_json::Map<_, _>>(),
+        "cred_defs": full.cred_defs.iter().map(|(k, v)| (k.to_string(), serde_json::to_value(v).unwrap())).collect::<serde_json::Map<_, _>>(),
+        "reg_defs": full.reg_defs.iter().flatten().map(|(k, v)| (k.to_string(), serde_json::to_value(v).unwrap())).collect::<serde_json::Map<_, _>>(),
+        "lists": full.lists.iter().flatten().map(|l| serde_json::to_value(l).unwrap()).collect::<Vec<_>>(),
+        "reqs": preqs.iter().map(|b| serde_json::from_slice::<Value>(b).unwrap()).collect::<Vec<_>>(),
+    });
+    let _ = USE_DOCS.set(use_docs.to_string());
     let ls: String = w.holders[0].try_clone().unwrap().try_into().unwrap();
     let queries: Vec<Vec<u8>> = vec![
         json!({"schema_id": "x"}), json!({"$and": [{"attr::name::value": "Alex"}, {"$not": {"cred_def_id": {"$in": ["a", "b"]}}}]}),
@@ -110,9 +184,13 @@ fn docs(w: &World) -> Vec<(&'static str, Parser, Vec<Vec<u8>>)> {
         ("RevocationRegistryDefinitionPrivate", p::<RevocationRegistryDefinitionPrivate>, vec![j(&w.reg.def_priv)]),
         ("RevocationStatusList", p::<RevocationStatusList>, w.lists.iter().map(|l| j(&l.list)).collect()),
         ("CredentialRevocationState", p::<CredentialRevocationState>, w.states.values().take(2).map(|s| j(s)).collect()),
-        ("PresentationRequest", p::<PresentationRequest>, preqs),
-        ("Presentation", p::<Presentation>, pres),
-        ("W3CPresentation", p::<W3CPresentation>, wpres),
+        ("PresentationRequest", p::<PresentationRequest>, preqs.clone()),
+        ("Presentation", p::<Presentation>, pres.clone()),
+        ("W3CPresentation", p::<W3CPresentation>, wpres.clone()),
+        ("Presentation+verify", p_pres_use, pres.clone()),
+        ("W3CPresentation+verify", p_wpres_use, wpres.clone()),
+        ("W3CCredential+convert", p_wcred_use, vec![j(&w.creds[0].w3c), j(&w.creds[1].w3c)]),
+        ("Credential+convert", p_cred_use, vec![j(&w.creds[0].legacy), j(&w.creds[1].legacy)]),
         ("Nonce", p::<Nonce>, vec![b"\"1234567890\"".to_vec(), b"123".to_vec()]),
         ("Query", p_query, queries),
         ("LinkSecret", p_link_secret, vec![ls.into_bytes()]),
@@ -376,6 +454,102 @@ pub fn mutant(valid: &[u8], r: &mut Rng) -> (Vec<u8>, String) {
     }
 }
 
+/// every node down to depth `maxd`, each replaced in turn by every small value, emptied, or removed
+fn sweep(valid: &[u8], maxd: usize) -> Vec<(Vec<u8>, String)> {
+    let Ok(root) = serde_json::from_slice::<Value>(valid) else { return vec![] };
+    fn paths(v: &Value, d: usize, maxd: usize, cur: &mut Vec<String>, out: &mut Vec<Vec<String>>) {
+        if d >= maxd {
+            return;
+        }
+        match v {
+            Value::Object(o) => {
+                for (k, x) in o {
+                    cur.push(k.clone());
+                    out.push(cur.clone());
+                    paths(x, d + 1, maxd, cur, out);
+                    cur.pop();
+                }
+            }
+            Value::Array(a) => {
+                for (i, x) in a.iter().enumerate().take(2) {
+                    cur.push(i.to_string());
+                    out.push(cur.clone());
+                    paths(x, d + 1, maxd, cur, out);
+                    cur.pop();
+                }
+            }
+            _ => {}
+        }
+    }
+    fn at<'a>(v: &'a mut Value, p: &[String]) -> Option<&'a mut Value> {
+        let mut x = v;
+        for k in p {
+            x = match x {
+                Value::Object(o) => o.get_mut(k)?,
+                Value::Array(a) => a.get_mut(k.parse::<usize>().ok()?)?,
+                _ => return None,
+            };
+        }
+        Some(x)
+    }
+    let mut ps = vec![];
+    paths(&root, 0, maxd, &mut vec![], &mut ps);
+    let repl: Vec<(&str, Value)> = vec![
+        ("null", Value::Null), ("empty-array", json!([])), ("empty-object", json!({})), ("array-of-empty-object", json!([{}])), ("array-of-null", json!([null])),
+        ("string", json!("x")), ("empty-string", json!("")), ("number", json!(7)), ("negative", json!(-1)), ("bool", json!(true)),
+    ];
+    let mut out = vec![];
+    for p in ps.iter() {
+        for (name, v) in repl.iter() {
+            let mut d = root.clone();
+            if let Some(x) = at(&mut d, p) {
+                *x = v.clone();
+                out.push((serde_json::to_vec(&d).unwrap(), format!("sweep-{}", name)));
+            }
+        }
+        // members emptied one level down, and the key removed
+        let mut d = root.clone();
+        if let Some(x) = at(&mut d, p) {
+            let changed = match x {
+                Value::Array(a) if !a.is_empty() => {
+                    for e in a.iter_mut() {
+                        *e = match e { Value::Object(_) => json!({}), Value::Array(_) => json!([]), _ => Value::Null };
+                    }
+                    true
+                }
+                Value::Object(o) if !o.is_empty() => {
+                    for (_, e) in o.iter_mut() {
+                        *e = Value::Null;
+                    }
+                    true
+                }
+                _ => false,
+            };
+            if changed {
+                out.push((serde_json::to_vec(&d).unwrap(), "sweep-members-emptied".to_string()));
+            }
+        }
+        if let Some((last, parent)) = p.split_last() {
+            let mut d = root.clone();
+            if let Some(Value::Object(o)) = at(&mut d, parent) {
+                o.remove(last);
+                out.push((serde_json::to_vec(&d).unwrap(), "sweep-key-removed".to_string()));
+            }
+        }
+    }
+    out
+}
+
+/// hand-written edge forms of restriction queries (run in addition to the mutants)
+fn query_edges() -> Vec<Vec<u8>> {
+    vec![
+        json!([]), json!({}), json!([{}]), json!([{}, {}]), json!([null]), json!([{"schema_id": null}]), json!([{"schema_id": null, "cred_def_id": null}]),
+        json!([{"schema_id": null}, {"cred_def_id": "x"}]), json!({"schema_id": null}), json!({"$or": []}), json!({"$and": []}), json!({"$or": [{}]}), json!({"$and": [{}, {}]}),
+        json!({"$not": {}}), json!({"$not": []}), json!({"$not": [{}]}), json!({"a": {"$in": []}}), json!({"a": {"$in": [null]}}), json!({"a": {}}), json!({"a": {"$neq": null}}),
+        json!({"$or": null}), json!({"$and": {}}), json!([[{}]]), json!([[], {}]), json!({"": ""}), json!([{"": null}]), json!({"$exist": []}), json!({"$exist": [null]}), json!({"$not": {"$not": {"$not": {}}}}),
+    ].into_iter().map(|q| serde_json::to_vec(&q).unwrap()).collect()
+}
+
 pub fn run_one(parse: Parser, input: &[u8]) -> (&'static str, String) {
     LAST_PANIC.with(|p| p.borrow_mut().clear());
     let t = Instant::now();
@@ -413,6 +587,21 @@ pub fn run(out: &mut Out, r: &mut Rng, w: &World, thorough: bool) {
             let mut rr = r.fork();
             let (input, kind) = mutant(&valids[(n as usize) % valids.len()], &mut rr);
             jobs.push(J { ty, parse: *parse, input, kind, n: n + 1 });
+        }
+        // systematic: every node near the root of (up to three of) the valid documents, every small replacement
+        let depth = if ty.contains("Presentation") || ty.contains("W3C") { 4 } else { 3 };
+        let mut n = per_type;
+        for v in valids.iter().take(if thorough { 6 } else { 3 }) {
+            for (input, kind) in sweep(v, depth) {
+                n += 1;
+                jobs.push(J { ty, parse: *parse, input, kind, n });
+            }
+        }
+        if *ty == "Query" {
+            for input in query_edges() {
+                n += 1;
+                jobs.push(J { ty, parse: *parse, input, kind: "edge-form".into(), n });
+            }
         }
     }
     let results = crate::par::par_map(&jobs, crate::par::ncpu(), |_, j| {
